@@ -117,7 +117,18 @@ class SchedImpl:
 
         async def coro() -> None:
             body()
-        return coro
+        if h % 2:
+            return coro
+
+        # a plain function that returns an awaitable is a valid `Callable[..., Awaitable]` too: it fails
+        # when it is *called*, not when the awaitable is awaited
+        async def nothing() -> None:
+            return None
+
+        def fn():
+            body()
+            return nothing()
+        return fn
 
     def _handler(self, e: Exception) -> None:
         self.out.append(f'exc {type(e).__name__}')
